@@ -30,7 +30,7 @@ func extMergoMerge(fr *frame, args []value) value {
 	if !ok || !ok2 {
 		unsupported("mergo.Merge is modelled for map[string]any only (got %T, %T)", *dp, srcI.v)
 	}
-	overwrite := false
+	overwrite, appendSlice := false, false
 	for _, o := range args[2].([]value) {
 		var sig *types.Signature
 		switch f := o.(type) {
@@ -51,6 +51,10 @@ func extMergoMerge(fr *frame, args []value) value {
 				if b, ok := cell.(structure)[k].(bool); ok && b {
 					overwrite = true
 				}
+			} else if st.Field(k).Name() == "AppendSlice" {
+				if b, ok := cell.(structure)[k].(bool); ok && b {
+					appendSlice = true
+				}
 			} else if b, ok := cell.(structure)[k].(bool); ok && b {
 				unsupported("mergo option %s is not modelled", st.Field(k).Name())
 			}
@@ -63,7 +67,7 @@ func extMergoMerge(fr *frame, args []value) value {
 		dst = makeMap(types.Typ[types.String], 0).(*omap)
 		*dp = dst
 	}
-	i.mergoMaps(fr, dst, src, overwrite)
+	i.mergoMaps(fr, dst, src, overwrite, appendSlice)
 	return iface{}
 }
 
@@ -101,7 +105,7 @@ func (i *interpreter) mergoEmpty(v value) bool {
 	return false
 }
 
-func (i *interpreter) mergoMaps(fr *frame, dst, src *omap, overwrite bool) {
+func (i *interpreter) mergoMaps(fr *frame, dst, src *omap, overwrite, appendSlice bool) {
 	type kv struct{ k, v value }
 	var entries []kv
 	src.each(func(k, v value) { entries = append(entries, kv{k, v}) })
@@ -129,17 +133,13 @@ func (i *interpreter) mergoMaps(fr *frame, dst, src *omap, overwrite bool) {
 				if dm == nil {
 					// a nil destination map cannot be set through MapIndex
 				} else {
-					i.mergoMaps(fr, dm, sv, overwrite)
+					i.mergoMaps(fr, dm, sv, overwrite, appendSlice)
 				}
 			}
 		case []value:
 			srcIsSlice = true
-			if sv == nil {
-				if overwrite {
-					dst.insert(fr, e.k, se)
-				}
-				continue
-			}
+			// (a nil slice inside the map's interface value is not "nil" to
+			// mergo: the element's kind is Interface, and that is not nil)
 			// quirk: the emptiness tests look at the enclosing maps
 			out := iface{se.t, []value{}}
 			if dok && de.t != nil {
@@ -147,8 +147,12 @@ func (i *interpreter) mergoMaps(fr *frame, dst, src *omap, overwrite bool) {
 					out = de
 				}
 			}
-			if overwrite || dst.len() == 0 {
+			if (overwrite || dst.len() == 0) && !appendSlice {
 				out = se
+			} else if appendSlice {
+				// (mergo refuses slices of different types; both are []any here)
+				ds, _ := out.v.([]value)
+				out = iface{se.t, append(append([]value{}, ds...), sv...)}
 			}
 			dst.insert(fr, e.k, out)
 			dv, dok = dst.lookup(fr, e.k)
